@@ -93,8 +93,19 @@ def check_closest(case, ctx):
             list(fileset.find(no_files_error=False))
             fileset.time_coverage = final_cov
         truth = pop.by_path()
+        shared_filters = {}
         for q in case["queries"]:
             t, filters = q["t"], q["filters"]
+            filters_arg = None
+            if filters is not None:
+                key = repr(sorted(filters.items()))
+                if key in shared_filters:
+                    ctx.label("filters-dict-reused")
+                filters_arg = shared_filters.setdefault(key, dict(filters))
+                ctx.check(filters_arg == filters,
+                          "closest/callers-filters-dict-modified", lambda: (
+                              "filters given as %r are now %r" % (
+                                  filters, filters_arg)))
             adm = [f for f in pop.files
                    if admissible(f, excl_paths, excl_periods, filters)]
             if P is None:
@@ -116,14 +127,14 @@ def check_closest(case, ctx):
                                     pop.files))
             try:
                 if q["via"] == "getitem":
-                    key = t if filters is None else (t, filters)
+                    key = t if filters is None else (t, filters_arg)
                     got = fileset[key]
                     ans = None if got is None else \
                         pop.prefix.rstrip("/") + "/" + got[1]
                     ctx.check(got is None or got[0] == "content-of",
                               "getitem/not-read-through-handler", where)
                 else:
-                    got = fileset.find_closest(t, filters=filters)
+                    got = fileset.find_closest(t, filters=filters_arg)
                     ans = None if got is None else (
                         got if isinstance(got, str) else got.path)
             except NoFilesError:
@@ -306,7 +317,12 @@ def closest_cases(draw):
             t = draw(G.instants(res))
         if not G.year_ok(tpl, t.year):
             t = t.replace(year=2018, day=min(t.day, 28))
-        queries.append({"t": t, "filters": draw(filters_for(tpl)),
+        queries.append({"t": t,
+                        "filters": (queries[0]["filters"]
+                                    if queries
+                                    and queries[0]["filters"] is not None
+                                    and draw(st.booleans())
+                                    else draw(filters_for(tpl))),
                         "via": draw(st.sampled_from(["find_closest",
                                                      "find_closest",
                                                      "getitem"]))})
@@ -346,10 +362,16 @@ def closest_handler_cases(draw):
     ts = []
     for _ in range(draw(st.integers(2, 5))):
         base = draw(st.sampled_from(starts))
-        off = draw(st.sampled_from([
-            dt.timedelta(0), dt.timedelta(0), unit, 5 * unit,
-            dt.timedelta(minutes=50), dt.timedelta(minutes=10),
-            -unit, dt.timedelta(hours=1, minutes=30)]))
+        offs = [dt.timedelta(0), dt.timedelta(0), unit, 5 * unit,
+                dt.timedelta(minutes=50), dt.timedelta(minutes=10),
+                -unit, dt.timedelta(hours=1, minutes=30)]
+        Pt = G.typhon_dir_period(tpl)
+        if Pt is not None:
+            # a file that starts between t - 2P and t - P and reaches (through
+            # the handler's end) into the neighbourhood of t
+            offs += [Pt + dt.timedelta(minutes=20), Pt + 2 * unit,
+                     Pt + Pt / 4, Pt + Pt / 2]
+        off = draw(st.sampled_from(offs))
         t = G.truncate(base + off, res)
         if not G.year_ok(tpl, t.year):
             t = base
